@@ -49,6 +49,17 @@ class EGen:
             return N("var", name=rng.choice(VARS)[0])
         if r < 0.82:
             return N("len", name=rng.choice(["s0", "r0", "us"]))
+        if r < 0.845:
+            # index bait: differences of operands narrower than int (promoted to int in C, so they go negative, not huge), indices around the
+            # length and the capacity, the last byte as a table index
+            nm_ = rng.choice(["s0", "r0", "us"])
+            small = lambda: rng.choice([N("var", name=rng.choice(["u1", "u2", "a1", "a2"])), N("len", name=rng.choice(["s0", "us", "r0"])), N("last"),
+                                        N("idx", name="us", e=N("num", v=0, text="0"))])
+            k = rng.choice([1, 1, 2, 3, 4, 8, 48, 255, 256])
+            e = rng.choice([N("bin", op="-", a=small(), b=N("num", v=k, text=str(k))), N("bin", op="-", a=small(), b=small()),
+                            N("bin", op="-", a=N("len", name=nm_), b=N("num", v=1, text="1")), N("len", name=nm_),
+                            N("bin", op="+", a=small(), b=N("num", v=k, text=str(k)))])
+            return N("idx", name=nm_, e=e)
         if r < 0.93:
             return N("idx", name=rng.choice(["s0", "r0", "us"]), e=self.int_expr(1) if rng.random() < 0.4 else
                      N("num", v=(iv := rng.choice([0, 1, 2, 3, 5, 6, 7, 100])), text=str(iv)))
